@@ -1006,7 +1006,6 @@ func (c *Client) dialAndConnect(config *Config) (net.Conn, *bufio.Reader, error)
 
 	// Don't make Close wait on a slow connect.
 	done := make(chan struct{})
-	defer close(done)
 	abort := make(chan error, 1)
 	go func() {
 		defer close(abort)
@@ -1022,7 +1021,7 @@ func (c *Client) dialAndConnect(config *Config) (net.Conn, *bufio.Reader, error)
 	bufr, err := c.handshake(conn, config, clientID)
 	// ⚠️ delayed error check
 
-	done <- struct{}{}
+	close(done) // the abort routine may have been gone already
 	e := <-abort
 	if e != nil {
 		// abort closed connection
